@@ -21,7 +21,7 @@ RULE = ("random removal-enabled graphs of both classes with JSON-native node ids
 MIN = {"quick": {"links==model": 3000, "rebuilt:has_interaction(u,v,t)": 50000, "directed-arg": 3000},
        "thorough": {"links==model": 60000, "rebuilt:has_interaction(u,v,t)": 1000000, "directed-arg": 60000}}
 REQUIRED_CELLS = {t: ("class:DynGraph", "class:DynDiGraph", "ids:int", "ids:str", "idkey:custom", "idkey:default",
-                      "src:isolated", "src:reciprocal", "src:self-loop") for t in ("quick", "thorough")}
+                      "src:isolated", "src:reciprocal", "src:self-loop", "attr-named-id") for t in ("quick", "thorough")}
 
 
 def one(ctx, dn):
@@ -43,6 +43,9 @@ def one(ctx, dn):
     # attributes
     n0 = next(iter(m.nodes))
     a0 = {"color": "red", "w": [1, 2, {"x": None}], "f": 1.5, "ok": True}
+    if idkey != "id" and rng.random() < 0.5:
+        a0["id"] = "an ordinary attribute when the id key is %r" % idkey
+        ctx.cell("attr-named-id")
     G.add_node(n0, **copy.deepcopy(a0))
     m.add_node(n0, **copy.deepcopy(a0))
     if rng.random() < 0.7:
